@@ -157,7 +157,7 @@ class TranslateNode(Node, TranslatableTag):
 
     def resolve_message_context(
         self,
-        context: RenderContext,  # noqa: ARG002
+        context: RenderContext,
         block_scope: dict[str, object],
     ) -> str | None:
         """Return the message context string.
@@ -166,6 +166,10 @@ class TranslateNode(Node, TranslatableTag):
         """
         message_context = block_scope.pop(self.message_context_var, None)
         if message_context:
+            if context.env.auto_escape:
+                # What the catalog answers with is written as markup. Like the
+                # translation filters, don't hand it unescaped text to answer with.
+                return to_liquid_string(message_context, auto_escape=True)
             return (
                 str(message_context)
                 if not isinstance(message_context, str)
